@@ -381,6 +381,13 @@ def main(argv=None):
         ma, adesc, added = T.add_fresh(m, kind, rng.randint(0, nunits), rng)
         case["add"] = Job(i, "add", render(ma, canon), {"model": ma, "desc": adesc, "added": added})
         jobs.append(case["add"])
+        case["add2"] = None
+        try:
+            ma2, adesc2, added2 = T.add_fresh(m, "type-forward", 0, rng)
+            case["add2"] = Job(i, "add-forward", render(ma2, canon), {"model": ma2, "desc": adesc2, "added": added2})
+            jobs.append(case["add2"])
+        except ValueError:
+            pass
         case["rem"] = None
         for _ in range(4):
             r = T.remove_unreferenced(m, rng.randrange(max(1, nunits)))
@@ -416,7 +423,9 @@ def main(argv=None):
         # C07/C20: an unused macro
         pu, udesc = T.add_unused_macro(p0, rng.randrange(1000), rng)
         case["unused"] = Job(i, "unused-macro", render(pu, canon), {"desc": udesc})
-        jobs += [case["macperm"], case["unused"]]
+        pu2, udesc2 = T.add_unused_macro(pm, rng.randrange(1000), rng, paste_existing=True)
+        case["unused2"] = Job(i, "unused-macro-pasting", render(pu2, canon), {"desc": udesc2})
+        jobs += [case["macperm"], case["unused"], case["unused2"]]
         # C11: faults
         case["faults"] = []
         tries = 0
@@ -493,25 +502,25 @@ def main(argv=None):
             if dfp and not any(exp_order[s] != act_order[s] for s in E.SECTIONS):
                 rep.add("skeleton", "permuted model: catalog_of != skeleton: " + dfp[0].split(":")[0], seed, "\n".join(dfp[:5]), jp.text())
         # C20
-        ja = case["add"]
-        if ja.status != "ok":
-            rep.add("C20", "adding a fresh declaration changes the verdict", seed, ja.meta["desc"] + "\n" + ja.err(), ja.text())
-        else:
-            added = ja.meta["added"]
-            ds = entry_diffs(rep, "C20", m, j0.json, ja.json, extra_in_b=added)
-            d = [x["text"] for x in ds]
-            oa, ob = E.order_of(j0.json), E.order_of(ja.json)
-            extra = []
-            for s in E.SECTIONS:
-                for k in added.get(s, []):
-                    if k not in ob[s]:
-                        extra.append("%s[%s]: the new entry is missing" % (s, k))
-                if [k for k in ob[s] if k not in added.get(s, [])] != oa[s]:
-                    extra.append("%s: relative order of the old entries changed: %s -> %s" % (s, oa[s], ob[s]))
-            if d or extra:
-                rep.add("C20", "a fresh %s changes another entry (%s)" % (
-                    ja.meta["desc"].split()[1], "; ".join(x for x in [diff_label(ds), "order/missing" if extra else ""] if x)),
-                    seed, ja.meta["desc"] + "\n" + "\n".join((d + extra)[:4]), ja.text())
+        for ja in [x for x in (case["add"], case["add2"]) if x is not None]:
+            if ja.status != "ok":
+                rep.add("C20", "adding a fresh declaration changes the verdict", seed, ja.meta["desc"] + "\n" + ja.err(), ja.text())
+            else:
+                added = ja.meta["added"]
+                ds = entry_diffs(rep, "C20", m, j0.json, ja.json, extra_in_b=added)
+                d = [x["text"] for x in ds]
+                oa, ob = E.order_of(j0.json), E.order_of(ja.json)
+                extra = []
+                for s in E.SECTIONS:
+                    for k in added.get(s, []):
+                        if k not in ob[s]:
+                            extra.append("%s[%s]: the new entry is missing" % (s, k))
+                    if [k for k in ob[s] if k not in added.get(s, [])] != oa[s]:
+                        extra.append("%s: relative order of the old entries changed: %s -> %s" % (s, oa[s], ob[s]))
+                if d or extra:
+                    rep.add("C20", "a fresh %s changes another entry (%s)" % (
+                        ja.meta["desc"].split()[1], "; ".join(x for x in [diff_label(ds), "order/missing" if extra else ""] if x)),
+                        seed, ja.meta["desc"] + "\n" + "\n".join((d + extra)[:4]), ja.text())
         jr = case["rem"]
         if jr is not None:
             if jr.status != "ok":
@@ -532,6 +541,7 @@ def main(argv=None):
             compare_pair(rep, "C07xC08xC05", "macros + includes + trivia plan (against the macro-ized canonical)", seed,
                          case["mac"], case["mac2"], m, case["mac2"].meta["desc"] + "\nplan " + json.dumps(case["mac2"].meta["plan"].to_json()))
         compare_pair(rep, "C07/C20", "unused macro", seed, j0, case["unused"], m, case["unused"].meta["desc"])
+        compare_pair(rep, "C07/C20", "unused macro that pastes an existing macro twice", seed, case["mac"], case["unused2"], m, case["unused2"].meta["desc"])
         jq = case["macperm"]
         if jq.status != case["mac"].status:
             rep.add("C10", "permuting the top level of a macro-ized document changes the verdict", seed,
